@@ -4,10 +4,12 @@ package main
 
 import (
 	"context"
+	"errors"
 	"encoding/json"
 	"fmt"
 	"net"
 	"os"
+	"strings"
 	"sync"
 	"sync/atomic"
 	"time"
@@ -39,6 +41,9 @@ type c17Config struct {
 	// Warm: the Client has just been used for a complete, healthy DialAndSend (connection 0) when the judged call
 	// starts; the server goes silent on the next connection
 	Warm bool `json:"warm_client,omitempty"`
+	// Fallback: the Client has a fallback port (WithTLSPortPolicy(TLSOpportunistic): 587, then 25); nothing listens on
+	// the primary port, the server that goes silent is the one reached through the fallback port
+	Fallback bool `json:"fallback_port,omitempty"`
 }
 
 type c17Case struct {
@@ -93,7 +98,17 @@ func runC17Case(r *ev.Run, c c17Case) int {
 		}
 	}}
 	opts := []mail.Option{mail.WithDialContextFunc(farm.Dial), mail.WithTimeout(timeout), mail.WithHELO("client.verif.example"), mail.WithTLSConfig(gen.ClientTLS(netHost, 0, 0))}
-	if cfg.TLS == "starttls" {
+	if cfg.Fallback {
+		opts[0] = mail.WithDialContextFunc(func(ctx context.Context, network, address string) (net.Conn, error) {
+			if strings.HasSuffix(address, ":587") {
+				r.Count("refused_dials_on_the_primary_port", 1)
+				return nil, &net.OpError{Op: "dial", Net: network, Err: errors.New("connection refused (nothing listens on the primary port)")}
+			}
+			return farm.Dial(ctx, network, address)
+		})
+		// opportunistic: STARTTLS is used exactly when the server announces it
+		opts = append(opts, mail.WithTLSPortPolicy(mail.TLSOpportunistic))
+	} else if cfg.TLS == "starttls" {
 		opts = append(opts, mail.WithTLSPolicy(mail.TLSMandatory))
 	} else {
 		opts = append(opts, mail.WithTLSPolicy(mail.NoTLS))
@@ -354,6 +369,13 @@ func c17Configs(thorough bool) []c17Config {
 		}
 		// a Client that has just completed a healthy DialAndSend (state carried from one connection to the next)
 		cfgs = append(cfgs, c17Config{Name: call + "-warm-client", Call: call, TLS: "none", Caps: all, NRcpt: 1, TimeoutMS: tmo, Warm: true})
+		// the connection is obtained through the fallback port
+		if call == "dial" || call == "dialandsend" || thorough {
+			cfgs = append(cfgs, c17Config{Name: call + "-fallback-port", Call: call, TLS: "none", Caps: with("AUTH PLAIN"), Auth: "PLAIN", NRcpt: 1, TimeoutMS: tmo, Fallback: true})
+		}
+		if call == "dial" || thorough {
+			cfgs = append(cfgs, c17Config{Name: call + "-fallback-port-starttls", Call: call, TLS: "starttls", Caps: with("STARTTLS"), CapsTLS: all, NRcpt: 1, TimeoutMS: tmo, Fallback: true})
+		}
 		// a caller context with a deadline of its own that is far later than the configured timeout
 		cfgs = append(cfgs, c17Config{Name: call + "-plain-ctx-later", Call: call, TLS: "none", Caps: with("AUTH PLAIN"), Auth: "PLAIN", NRcpt: 1, TimeoutMS: tmo, Ctx: "later"})
 		if thorough || call == "dial" {
@@ -375,7 +397,7 @@ func c17Configs(thorough bool) []c17Config {
 
 func runC17(r *ev.Run, rep *ev.ReplayDoc) ev.Summary {
 	sum := ev.Summary{
-		Rule: "for DialWithContext, DialAndSend, Send and Reset x {no TLS, STARTTLS} x {no auth, PLAIN, LOGIN, AUTH after STARTTLS, HELO fallback} x {context.Background, a caller context whose own deadline is an hour away} x {fresh Client, Client that has just completed a healthy DialAndSend}: the reference server goes silent (holding the connection; not reading any more, or still reading but never replying) at every command position of the dialogue in turn - greeting, EHLO, HELO, STARTTLS reply, inside the TLS handshake, post-TLS EHLO, every AUTH step, NOOP, MAIL, each RCPT, DATA, inside the content, end-of-data reply, RSET, QUIT. The tracking conn records the deadline armed at the entry of every Read/Write. After a stalled Send / Reset has returned its error, the other one of the two is called on the same Client and has to return, too. non-trivial = the stall point was reached; distinct by (configuration, stall point)",
+		Rule: "for DialWithContext, DialAndSend, Send and Reset x {no TLS, STARTTLS} x {no auth, PLAIN, LOGIN, AUTH after STARTTLS, HELO fallback} x {context.Background, a caller context whose own deadline is an hour away} x {fresh Client, Client that has just completed a healthy DialAndSend} x {primary port, connection obtained through the fallback port after the primary port refused}: the reference server goes silent (holding the connection; not reading any more, or still reading but never replying) at every command position of the dialogue in turn - greeting, EHLO, HELO, STARTTLS reply, inside the TLS handshake, post-TLS EHLO, every AUTH step, NOOP, MAIL, each RCPT, DATA, inside the content, end-of-data reply, RSET, QUIT. The tracking conn records the deadline armed at the entry of every Read/Write. After a stalled Send / Reset has returned its error, the other one of the two is called on the same Client and has to return, too. non-trivial = the stall point was reached; distinct by (configuration, stall point)",
 		Assumptions: []string{
 			"generous bound: a call counts as blocked only if it has not returned max(20 x timeout, 5 s) + timeout after it started",
 			"violation = still blocked AND the pending network operation was entered without a deadline (the logical cause); blocked with a deadline armed = inconclusive",
